@@ -521,6 +521,87 @@ def _scalarise_records(model, rel, fn):
     T().visit(fn)
 
 
+def _cond_funcs(fn):
+    """N19: a function chosen by a condition - `if c: def f(x): return E  else: f = g` (or `f = A if c else B`) - with calls `f(a)`:
+    the calls become `E[x:=a] if c else g(a)` when c is pure and not affected by stores of the function, the arguments are
+    names/constants, and f is bound nowhere else."""
+    from .sem import is_pure
+
+    def blocks(node):
+        for f_ in ("body", "orelse", "finalbody"):
+            v = getattr(node, f_, None)
+            if isinstance(v, list) and v and isinstance(v[0], ast.stmt):
+                yield v
+        for h in getattr(node, "handlers", []) or []:
+            yield h.body
+
+    def as_fref(stmts, name):
+        """the function value bound to `name` by a one-statement branch: a lambda for a single-expression def, a plain reference for an alias"""
+        if len(stmts) != 1:
+            return None
+        st = stmts[0]
+        if isinstance(st, ast.FunctionDef) and st.name == name and not st.decorator_list:
+            a = st.args
+            e = _single_expr(st)
+            if e is None or a.vararg or a.kwarg or a.kwonlyargs or a.defaults:
+                return None
+            return ast.Lambda(args=ast.arguments(posonlyargs=[], args=[ast.arg(arg=p.arg) for p in a.posonlyargs + a.args], kwonlyargs=[], kw_defaults=[], defaults=[]), body=e)
+        if isinstance(st, ast.Assign) and len(st.targets) == 1 and isinstance(st.targets[0], ast.Name) and st.targets[0].id == name and isinstance(st.value, (ast.Name, ast.Attribute, ast.Lambda)):
+            return st.value
+        return None
+    for node in list(ast.walk(fn)):
+        if isinstance(node, (ast.ClassDef,)) or (isinstance(node, ast.FunctionDef) and node is not fn):
+            continue
+        for blk in blocks(node):
+            for i, st in enumerate(blk):
+                if isinstance(st, ast.If) and len(st.body) == 1 and len(st.orelse) == 1:
+                    nm = st.body[0].name if isinstance(st.body[0], ast.FunctionDef) else (st.orelse[0].name if isinstance(st.orelse[0], ast.FunctionDef) else None)
+                    if nm is None:
+                        continue
+                    a, b = as_fref(st.body, nm), as_fref(st.orelse, nm)
+                    if a is not None and b is not None:
+                        blk[i] = _loc(ast.Assign(targets=[ast.Name(id=nm, ctx=ast.Store())], value=ast.IfExp(test=st.test, body=a, orelse=b)), st)
+    stores = {}
+    for x in ast.walk(fn):
+        if isinstance(x, ast.Name) and isinstance(x.ctx, (ast.Store, ast.Del)):
+            stores[x.id] = stores.get(x.id, 0) + 1
+        elif isinstance(x, (ast.FunctionDef, ast.ClassDef)) and x is not fn:
+            stores[x.name] = stores.get(x.name, 0) + 1
+    params = {a_.arg for a_ in ast.walk(fn.args) if isinstance(a_, ast.arg)}
+    cands = {}
+    for x in ast.walk(fn):
+        if isinstance(x, ast.Assign) and len(x.targets) == 1 and isinstance(x.targets[0], ast.Name) and isinstance(x.value, ast.IfExp) and stores.get(x.targets[0].id) == 1 \
+                and x.targets[0].id not in params and all(isinstance(v, (ast.Lambda, ast.Name, ast.Attribute)) for v in (x.value.body, x.value.orelse)) and is_pure(x.value.test) \
+                and any(isinstance(v, ast.Lambda) for v in (x.value.body, x.value.orelse)) \
+                and not any(isinstance(n_, ast.Name) and stores.get(n_.id) for n_ in ast.walk(x.value.test)):
+            cands[x.targets[0].id] = x
+    if not cands:
+        return
+
+    def apply(f, args):
+        if isinstance(f, ast.Lambda):
+            mp = {p.arg: (a.id if isinstance(a, ast.Name) else a) for p, a in zip(f.args.args, args)}
+            return _Rename(mp).visit(copy.deepcopy(f.body))
+        return ast.Call(func=copy.deepcopy(f), args=[copy.deepcopy(a) for a in args], keywords=[])
+
+    class T(ast.NodeTransformer):
+        def visit_Call(t, n):
+            t.generic_visit(n)
+            if isinstance(n.func, ast.Name) and n.func.id in cands and not n.keywords and all(isinstance(a, (ast.Name, ast.Constant)) for a in n.args):
+                v = cands[n.func.id].value
+                if all(not isinstance(f, ast.Lambda) or len(f.args.args) == len(n.args) for f in (v.body, v.orelse)):
+                    return _loc(ast.IfExp(test=copy.deepcopy(v.test), body=apply(v.body, n.args), orelse=apply(v.orelse, n.args)), n)
+            return n
+    T().visit(fn)
+    # the definition goes when nothing refers to the name any more
+    for nm, st in cands.items():
+        if not any(isinstance(x, ast.Name) and x.id == nm and isinstance(x.ctx, ast.Load) for x in ast.walk(fn)):
+            for node in ast.walk(fn):
+                for blk in blocks(node):
+                    if st in blk:
+                        blk[blk.index(st)] = _loc(ast.Pass(), st)
+
+
 def _terminates(stmts) -> bool:
     return bool(stmts) and isinstance(stmts[-1], (ast.Return, ast.Raise, ast.Continue, ast.Break))
 
@@ -670,13 +751,18 @@ def _used_once_in_order(expr, params, p) -> bool:
 
 
 def _returns(body):
+    """The `return` statements of a statement list itself (those of nested defs belong to them)."""
     out = []
+
+    def go(n):
+        if isinstance(n, (ast.FunctionDef, ast.AsyncFunctionDef, ast.Lambda, ast.ClassDef)):
+            return
+        if isinstance(n, ast.Return):
+            out.append(n)
+        for ch in ast.iter_child_nodes(n):
+            go(ch)
     for s in body:
-        for x in ast.walk(s):
-            if isinstance(x, (ast.FunctionDef, ast.Lambda)):
-                continue
-            if isinstance(x, ast.Return):
-                out.append(x)
+        go(s)
     return out
 
 
@@ -1092,6 +1178,18 @@ class Inliner:
                 for h in getattr(s, "handlers", []) or []:
                     collect(h.body)
         collect(fn.body)
+        # a name that is bound in any other way as well (`if fill: def blank(..) ... else: blank = cursor_forward`, two defs, a parameter) does
+        # not denote one function: calls through it are left alone
+        bound_otherwise = {x.id for x in ast.walk(fn) if isinstance(x, ast.Name) and isinstance(x.ctx, (ast.Store, ast.Del))} | {a_.arg for a_ in ast.walk(fn.args) if isinstance(a_, ast.arg)}
+        ndefs = {}
+        for x in ast.walk(fn):
+            if isinstance(x, (ast.FunctionDef, ast.AsyncFunctionDef, ast.ClassDef)) and x is not fn:
+                ndefs[x.name] = ndefs.get(x.name, 0) + 1
+        for nm_ in list(closures):
+            if closures[nm_] in (outer or {}).values():
+                continue            # handed in from the enclosing scope
+            if nm_ in bound_otherwise or ndefs.get(nm_, 0) > 1:
+                del closures[nm_]
         self.closures = closures
         if getattr(self, "root", None) is None:
             self.root = fn
@@ -1243,7 +1341,16 @@ class Inliner:
         if c is None:
             return _why(624)
         callee, recv, kind = c
-        keep_names = {x.id for t_ in s.targets for x in ast.walk(t_) if isinstance(x, ast.Name)} if mode == "assign" else set()
+        # names the call's result is assigned to (overwritten anyway): plain name targets only - `obj.attr = helper()` READS obj
+        def _tnames(t_):
+            if isinstance(t_, ast.Name):
+                return {t_.id}
+            if isinstance(t_, (ast.Tuple, ast.List)):
+                return set().union(*[_tnames(e_) for e_ in t_.elts]) if t_.elts else set()
+            if isinstance(t_, ast.Starred):
+                return _tnames(t_.value)
+            return set()
+        keep_names = set().union(*[_tnames(t_) for t_ in s.targets]) if mode == "assign" else set()
         body = self._body_of(callee, call, recv, kind, keep_names)
         if body is None:
             return _why(629)
@@ -1357,6 +1464,58 @@ def _single_expr(callee):
             ast.fix_missing_locations(c)
             real = [ast.Return(value=_expand(c, real[-1].value))]
     if len(real) != 1 or not isinstance(real[0], ast.Return) or real[0].value is None:
+        # straight-line definitions with conditional re-definitions, then `return E`: the value of E as one expression (backward value slice,
+        # if/else merged into conditional expressions) - accepted when no call of the body is duplicated by the substitution
+        def simple(stmts):
+            for x in stmts:
+                if isinstance(x, (ast.Assign, ast.AnnAssign)):
+                    tg = x.targets[0] if isinstance(x, ast.Assign) and len(x.targets) == 1 else (x.target if isinstance(x, ast.AnnAssign) else None)
+                    if not isinstance(tg, ast.Name):
+                        return False
+                elif isinstance(x, ast.If):
+                    if not (simple(x.body) and simple(x.orelse)):
+                        return False
+                elif not isinstance(x, ast.Pass):
+                    return False
+            return True
+        if len(real) >= 2 and isinstance(real[-1], ast.Return) and real[-1].value is not None and simple(real[:-1]):
+            from .sem import trace as _trace_
+            from collections import Counter
+            ast.fix_missing_locations(c)
+            for n_ in ast.walk(c):
+                for ch in ast.iter_child_nodes(n_):
+                    ch._p = n_
+            c._p = None
+            k_ = 0
+            for st_ in ast.walk(c):
+                if isinstance(st_, ast.stmt):
+                    k_ += 1
+            def number(stmts, ctr=[0]):
+                for st_ in stmts:
+                    ctr[0] += 1
+                    for x_ in ast.walk(st_):
+                        if hasattr(x_, "lineno") and not isinstance(x_, ast.stmt):
+                            x_.lineno = ctr[0]
+                    st_.lineno = ctr[0]
+                    for f_ in ("body", "orelse"):
+                        v_ = getattr(st_, f_, None)
+                        if isinstance(v_, list) and v_ and isinstance(v_[0], ast.stmt):
+                            number(v_, ctr)
+            number(c.body)
+            e_ = _trace_(c, real[-1].value)
+            params = {a_.arg for a_ in ast.walk(c.args) if isinstance(a_, ast.arg)}
+            local_names = {x.id for x in ast.walk(c) if isinstance(x, ast.Name) and isinstance(x.ctx, ast.Store)}
+            left = {x.id for x in ast.walk(e_) if isinstance(x, ast.Name)} & (local_names - params)
+            orig = Counter(ast.unparse(x.func) for s_ in real for x in ast.walk(s_) if isinstance(x, ast.Call))
+            new_ = Counter(ast.unparse(x.func) for x in ast.walk(e_) if isinstance(x, ast.Call))
+            if not left and all(new_[k] <= orig.get(k, 0) for k in new_) and not any(x.id.endswith("__0") for x in ast.walk(e_) if isinstance(x, ast.Name)):
+                for x in ast.walk(e_):
+                    if hasattr(x, "_p"):
+                        try:
+                            del x._p
+                        except AttributeError:
+                            pass
+                return e_
         return None
     return real[0].value
 
@@ -1375,6 +1534,15 @@ def normalize_function(model, rel, fn, owner_cls=None):
             inl.inlined |= il.inlined
     _append_loops(new)
     _scalarise_records(model, rel, new)
+    if owner_cls is not None:
+        # N18: inside a method, `OwnClass.attr` names the same class object as `__class__.attr` (the rules are written with the latter)
+        own_name = owner_cls.name
+        if not any(isinstance(x, ast.Name) and x.id == own_name and isinstance(x.ctx, (ast.Store, ast.Del)) for x in ast.walk(new)) \
+                and not any(isinstance(a_, ast.arg) and a_.arg == own_name for a_ in ast.walk(new)):
+            for x in ast.walk(new):
+                if isinstance(x, ast.Attribute) and isinstance(x.value, ast.Name) and x.value.id == own_name and isinstance(x.value.ctx, ast.Load):
+                    x.value.id = "__class__"
+    _cond_funcs(new)
     new = _Canon().visit(new)
     _guard_clauses(new)
     # nested baseline closures get the canonicalisation too (they were visited by _Canon); guard clauses per nested def:
